@@ -94,7 +94,7 @@ def check(case, ctx):
     ref = Ref(spec)
     script = Script(case["script"])
     G = build(spec, cache_factory=lambda name: ScriptedCache(script, name))
-    if "no-coalesce-value-failure" in ctx.flags and any("coalesce-absorbed-value-failure" in ref.run(o).labels for o in case["history"]):
+    if "no-coalesce-value-failure" in ctx.flags and any("absorbed-under-cache" in ref.run(o).labels for o in case["history"]):
         ctx.exclude("no-coalesce-value-failure")
         ctx.done(case, False, ["excluded-K6"])
         return
